@@ -179,6 +179,11 @@ impl<'a, T> ChordsV2<'a, T> {
         }
     }
 
+    /// The events that have not been handed over to the layout's own queue yet, oldest first.
+    pub fn queued_events_chv2(&self) -> impl Iterator<Item = &Queued> {
+        self.queue.iter()
+    }
+
     pub fn is_idle_chv2(&self) -> bool {
         self.queue.is_empty() && self.active_chords.is_empty() && self.ticks_until_next_state_change == 0
     }
